@@ -152,13 +152,13 @@ type world struct {
 	keySeq    int
 
 	// extension (ext_test.go): what the store knows about scripts, and garbage replies
-	raw       *red.Client  // the harness's own plain connection to miniredis (SCRIPT FLUSH / EXISTS)
-	cached    sync.Map     // sha1 -> struct{}: scripts the store holds (mirrors miniredis' script cache)
-	noScript  atomic.Int64 // top-level EVALSHA for a script the store does not hold (answered NOSCRIPT)
-	evalFull  atomic.Int64 // top-level EVAL (script body sent) handed to miniredis
-	garble    atomic.Int32 // != 0: script commands are answered with a reply no script of a limiter produces
-	garbled   atomic.Int64 // script commands answered that way
-	flushes   atomic.Int64 // SCRIPT FLUSH commands seen
+	raw      *red.Client  // the harness's own plain connection to miniredis (SCRIPT FLUSH / EXISTS)
+	cached   sync.Map     // sha1 -> struct{}: scripts the store holds (mirrors miniredis' script cache)
+	noScript atomic.Int64 // top-level EVALSHA for a script the store does not hold (answered NOSCRIPT)
+	evalFull atomic.Int64 // top-level EVAL (script body sent) handed to miniredis
+	garble   atomic.Int32 // != 0: script commands are answered with a reply no script of a limiter produces
+	garbled  atomic.Int64 // script commands answered that way
+	flushes  atomic.Int64 // SCRIPT FLUSH commands seen
 }
 
 func shaOf(script string) string {
@@ -1809,6 +1809,5 @@ func TestVerifC03(t *testing.T) {
 	kit.Run(t, "C03", "period-conc", kit.N(600, 8000), func(c *kit.Case) { runPeriodConc(c, w) })
 	kit.Run(t, "C03", "token-seq", kit.N(1200, 20000), func(c *kit.Case) { runTokenSeq(c, w) })
 	kit.Run(t, "C03", "token-conc", kit.N(800, 10000), func(c *kit.Case) { runTokenConc(c, w) })
-	runExtFamilies(t, w)
 	kit.End()
 }
